@@ -18,6 +18,29 @@ fn viol(rep: &mut Report, rule: &str, pred: &str, detail: String, bytes: &[u8]) 
     );
 }
 
+/// where the value that the strict loader rejects stands: the parser reports attribute values and element content with the same
+/// error variants, so the line named by the error is inspected
+fn value_location(text: &str, e: &AutosarDataError) -> &'static str {
+    let AutosarDataError::ParserError { line, source, .. } = e else { return "" };
+    let msg = source.to_string();
+    let value = if let Some(rest) = msg.strip_prefix("enum item ") {
+        rest.split(' ').next().unwrap_or("").to_string()
+    } else if let Some(rest) = msg.strip_prefix("string value ") {
+        rest.split(" is ").next().unwrap_or("").to_string()
+    } else {
+        return "";
+    };
+    let Some(l) = text.lines().nth(line.saturating_sub(1)) else { return "" };
+    let in_attr = l.contains(&format!("=\"{value}\"")) || l.contains(&format!("='{value}'"));
+    let in_content = l.contains(&format!(">{value}<")) || l.trim() == value;
+    match (in_attr, in_content) {
+        (true, false) => ":in-attribute",
+        (false, true) => ":in-content",
+        (true, true) => ":in-attribute-or-content",
+        (false, false) => ":elsewhere",
+    }
+}
+
 fn relabel(text: &str, from: AutosarVersion, to: AutosarVersion) -> String {
     text.replacen(from.filename(), to.filename(), 1)
 }
@@ -52,7 +75,7 @@ fn check_file(rep: &mut Report, model: &AutosarModel, file: &ArxmlFile, source: 
         rep.count(if accepted { "pairs.accepted_by_strict_load" } else { "pairs.rejected_by_strict_load" }, 1);
         if says_ok != accepted {
             let why = match &accept {
-                Err(e) => crate::hist::err_variant(e),
+                Err(e) => format!("{}{}", crate::hist::err_variant(e), value_location(&relabelled, e)),
                 Ok(_) => format!("{}", match errs.first() {
                     Some(CompatibilityError::IncompatibleElement { .. }) => "IncompatibleElement",
                     Some(CompatibilityError::IncompatibleAttribute { .. }) => "IncompatibleAttribute",
@@ -121,6 +144,22 @@ fn check_file(rep: &mut Report, model: &AutosarModel, file: &ArxmlFile, source: 
     }
 }
 
+/// remove the content of a few elements that carry attributes (references keep DEST, elements keep UUID / T / ...): empty elements
+/// with version dependent attributes
+fn empty_some(rng: &mut Rng, n: &mut refxml::RefNode, emptied: &mut u64) {
+    for item in n.items.iter_mut() {
+        if let refxml::RefItem::Elem(c) = item {
+            let named = matches!(c.items.first(), Some(refxml::RefItem::Elem(sn)) if sn.name == "SHORT-NAME");
+            if !c.attrs.is_empty() && !named && !c.items.is_empty() && rng.chance(1, 3) {
+                c.items.clear();
+                *emptied += 1;
+            } else {
+                empty_some(rng, c, emptied);
+            }
+        }
+    }
+}
+
 pub fn run(rep: &mut Report, tier: &str) {
     crate::panicmon::install();
     let thorough = tier == "thorough";
@@ -136,11 +175,36 @@ pub fn run(rep: &mut Report, tier: &str) {
             let mut rng = Rng::derive(seed, "c17", case);
             let source = random_version(&mut rng);
             let (doc, _) = random_chunk_doc(&mut rng, seed, source, 3, true);
-            let bytes = refxml::render(&mut rng, Style::plain(), &doc);
-            let model = AutosarModel::new();
-            let Ok((file, _)) = model.load_buffer(&bytes, "a.arxml", true) else {
-                sub.count("documents_not_strictly_loadable(skipped)", 1);
-                continue;
+            let mut bytes = refxml::render(&mut rng, Style::plain(), &doc);
+            let mut model = AutosarModel::new();
+            let mut loaded = None;
+            if case % 2 == 1 {
+                // variant with emptied elements, if it still loads strictly
+                let mut doc_e = doc.clone();
+                let mut emptied = 0;
+                empty_some(&mut rng, &mut doc_e.root, &mut emptied);
+                if emptied > 0 {
+                    let bytes_e = refxml::render(&mut rng, Style::plain(), &doc_e);
+                    if let Ok((file, _)) = model.load_buffer(&bytes_e, "a.arxml", true) {
+                        sub.count("documents.with_emptied_elements", 1);
+                        sub.count("emptied_elements_with_attributes", emptied);
+                        bytes = bytes_e;
+                        loaded = Some(file);
+                    } else {
+                        sub.count("emptied_variants_not_strictly_loadable(fall back to the full document)", 1);
+                        model = AutosarModel::new();
+                    }
+                }
+            }
+            let file = match loaded {
+                Some(f) => f,
+                None => {
+                    let Ok((file, _)) = model.load_buffer(&bytes, "a.arxml", true) else {
+                        sub.count("documents_not_strictly_loadable(skipped)", 1);
+                        continue;
+                    };
+                    file
+                }
             };
             sub.count("documents", 1);
             let multi = case % 3 == 0;
@@ -168,6 +232,7 @@ pub fn run(rep: &mut Report, tier: &str) {
         }
     });
     rep.require("documents", (n / 2) as u64);
+    rep.require("documents.with_emptied_elements", (n / 20) as u64);
     rep.require("pairs.accepted_by_strict_load", 2000);
     rep.require("pairs.rejected_by_strict_load", 2000);
     rep.require("set_version.ok", 1000);
